@@ -494,7 +494,7 @@ FailPending(x, b) == [x EXCEPT !.res = [i \in DOMAIN x.res |-> IF x.res[i].b = b
                                                                 THEN [x.res[i] EXCEPT !.st = "error", !.err = "Cancelled:pending"]
                                                                 ELSE x.res[i]]]
 AbandonFx(b, e) ==
-  LET E0 == IF IsParallel(Cfg, b) THEN ev ELSE [ev EXCEPT ![e] = FailPending(@, b)]
+  LET E0 == [ev EXCEPT ![e] = FailPending(@, b)]
       E1 == Mark(E0, e)
       E2 == MarkUp(E1, hist, e, {})
   IN [E |-> E2, H |-> [hist EXCEPT ![b] = Evict(E2, b, @)]]
